@@ -85,6 +85,8 @@ pub trait Property {
     /// run every case in a child executor process (a crash of the code under test, e.g. inside the
     /// bundled C library, then costs one retry of one case instead of the whole shard)
     const ISOLATE: bool = true;
+    /// bound on the time one case may take in the executor (seconds); DV_CASE_TIMEOUT overrides it
+    const CASE_TIMEOUT_S: u64 = 600;
     fn plan(tier: Tier) -> Plan;
     fn strategy(tier: Tier) -> BoxedStrategy<Self::Case>;
     /// interpret one case. `strict` is true in replay mode.
@@ -404,6 +406,9 @@ struct ExecClient {
     pub crashes: u64,
     /// a case did not answer within the per-case bound: the executor was killed (inconclusive, never a violation)
     pub hung: bool,
+    pub bound: u64,
+    /// cases that hung once and finished when run again in a fresh executor
+    pub hung_once: u64,
 }
 impl ExecClient {
     fn new(tier: Tier) -> Self {
@@ -412,6 +417,8 @@ impl ExecClient {
             tier,
             crashes: 0,
             hung: false,
+            bound: 600,
+            hung_once: 0,
         }
     }
     fn ensure(&mut self) {
@@ -439,7 +446,7 @@ impl ExecClient {
         }
         // per-case watchdog: a case that does not answer within the bound is a hang of the code under test or
         // of the harness; the executor is killed and the run reported inconclusive
-        let bound = std::env::var("DV_CASE_TIMEOUT").ok().and_then(|x| x.parse().ok()).unwrap_or(1800u64);
+        let bound = std::env::var("DV_CASE_TIMEOUT").ok().and_then(|x| x.parse().ok()).unwrap_or(self.bound);
         let pid = child.id();
         let done = std::sync::Arc::new(std::sync::atomic::AtomicBool::new(false));
         let fired = std::sync::Arc::new(std::sync::atomic::AtomicBool::new(false));
@@ -479,6 +486,19 @@ impl ExecClient {
                     let _ = c.kill();
                     let _ = c.wait();
                 }
+                // a stall that does not repeat (seen once in ~40 000 multi-instance cases under full load, never
+                // reproduced from the saved case) is counted and the case is run again in a fresh executor; a case
+                // that stalls twice makes the run inconclusive
+                self.hung = false;
+                if let Some(o) = self.try_run(&line) {
+                    self.hung_once += 1;
+                    return o;
+                }
+                if let Some((mut c, _)) = self.child.take() {
+                    let _ = c.kill();
+                    let _ = c.wait();
+                }
+                self.hung = true;
                 let mut o = Outcome::default();
                 o.discard = Some("case-hung".to_string());
                 return o;
@@ -577,7 +597,13 @@ fn worker<P: Property>(args: &Args, shard: usize, out_path: &str) -> i32 {
     let cases = args.cases.unwrap_or(plan.cases_per_shard);
     let mut ctx = make_ctx(args.tier, false);
     let mut merged = Merged::default();
-    let mut exec = if P::ISOLATE { Some(ExecClient::new(args.tier)) } else { None };
+    let mut exec = if P::ISOLATE {
+        let mut e = ExecClient::new(args.tier);
+        e.bound = P::CASE_TIMEOUT_S;
+        Some(e)
+    } else {
+        None
+    };
 
     // fixed cases are distributed round robin over the shards
     let nshards = args.shards.unwrap_or(plan.shards).max(1);
@@ -623,6 +649,15 @@ fn worker<P: Property>(args: &Args, shard: usize, out_path: &str) -> i32 {
             };
             let case = tree.current();
             ctx.case_index += 1;
+            // development aid: DV_DUMP_CASE=<shard>:<n> writes the n-th generated case of a shard as a replay file
+            if let Ok(spec) = std::env::var("DV_DUMP_CASE") {
+                if spec == format!("{}:{}", shard, n) {
+                    let rf = ReplayFile { property: P::ID.to_string(), signature: "dumped".to_string(), detail: String::new(), seed: args.seed, case: case.clone() };
+                    let _ = std::fs::write("/dev/shm/dv_dumped_case.json", serde_json::to_string_pretty(&rf).unwrap());
+                    break;
+                }
+                continue;
+            }
             let out = run_case::<P>(&mut exec, &case, &ctx);
             if exec.as_ref().map(|e| e.hung).unwrap_or(false) {
                 merged.inconclusive.push(format!(
@@ -657,6 +692,7 @@ fn worker<P: Property>(args: &Args, shard: usize, out_path: &str) -> i32 {
     }
     if let Some(e) = exec.as_mut() {
         *merged.counters.entry("executor_restarts".into()).or_insert(0) += e.crashes;
+        *merged.counters.entry("cases_stalled_once_then_finished".into()).or_insert(0) += e.hung_once;
         e.stop();
     }
     let _ = std::fs::remove_dir_all(&ctx.scratch);
@@ -746,7 +782,13 @@ fn coordinator<P: Property>(args: &Args) -> i32 {
         .unwrap_or_default();
     replay_files.sort();
     let mut ctx = ctx;
-    let mut exec = if P::ISOLATE { Some(ExecClient::new(args.tier)) } else { None };
+    let mut exec = if P::ISOLATE {
+        let mut e = ExecClient::new(args.tier);
+        e.bound = P::CASE_TIMEOUT_S;
+        Some(e)
+    } else {
+        None
+    };
     for f in replay_files {
         if f.extension().map(|e| e != "json").unwrap_or(true) {
             continue;
